@@ -229,8 +229,8 @@ Definition mutate (g : ocls -> ocls -> bool) (r : ocls) (d : list melt) (m : mut
     if negb (olen x =? 1) then Err ValueError                      (* len(value) != 1 (fix b1d6482; it was len(value) > 1) *)
     else match m with
     | SetInt pos => if pos <? length d then Ok (replace_nth d pos (opd_A x)) else Err IndexError
-    | SetSlice lo hi =>                                            (* list slice assignment iterates value.A *)
-        Ok (firstn lo d ++ repeat Junk (nrows (ocl x)) ++ skipn hi d)      (* STILL OPEN: the rows of the value are spread *)
+    | SetSlice lo hi => Err ValueError                             (* a slice index is rejected (fix fcdd4db; list slice assignment
+                                                                      iterated value.A and stored the rows of the matrix) *)
     | Append => Ok (d ++ [opd_A x])
     | Insert pos => Ok (firstn pos d ++ [opd_A x] ++ skipn pos d)
     | Extend => Ok d
